@@ -88,6 +88,7 @@ pub fn decode(src: &mut Source) -> Box<dyn Case> {
     o.fits_limit = false;
     o.max_recs = 6;
     o.queries = 1;
+    o.ext_langs = true;
     // accents matter here: bias to the languages that fold something
     let mut w = gen_world(src, o);
     // titles: no free-standing marks that could interact with a decomposed spelling next to them
